@@ -30,6 +30,10 @@ def run(pid, tier):
     sub = scen[::5]
     obs2 = pc.execute(rep, sub, 'default', 'C06nullcb', env={'DRV_NULL_CALLBACKS': '1'})
     pc.validate(rep, 'C06', sub, obs2, 'C06-null-callbacks', kindfn=kind, fields={'out'})
+    # a write callback that reports 0 bytes (a transport that queues): bytes, terminator and flush as before
+    sub3 = scen[2::7]
+    obs3 = pc.execute(rep, sub3, 'default', 'C06write0', env={'DRV_WRITE_ZERO': '1'})
+    pc.validate(rep, 'C06', sub3, obs3, 'C06-write-returns-0', kindfn=kind)
     suite_traces.validate(rep, 'C06:')
     composition.validate(rep, 'C06', tier)   # random messages of a minimal instrument against Scpi.tla      # hook traces of the repository's own test programs
     nt = [s for s in scen if nontrivial(s)]
